@@ -106,7 +106,7 @@ func parseContractFile(path string) ([]*Contract, string, error) {
 			continue
 		}
 		if strings.HasPrefix(tb, "|") {
-			txt := strings.TrimPrefix(tb, "|")
+			txt := strings.TrimPrefix(strings.TrimPrefix(tb, "|"), " ")
 			if cur == nil {
 				return nil, "", fmt.Errorf("%s:%d: continuation outside block", path, i+1)
 			}
@@ -719,7 +719,7 @@ func verifAny[T any]() (x T) { return }
 // genStubFile generates the overlay source for one package.
 func genStubFile(ps *pkgSyntax, cs []*Contract) (string, error) {
 	var body strings.Builder
-	body.WriteString(intrinsicsSrc)
+	body.WriteString("// verif-intrinsics-begin" + intrinsicsSrc + "// verif-intrinsics-end\n")
 	for _, c := range cs {
 		switch c.Kind {
 		case "spec":
@@ -771,8 +771,15 @@ func genStubFile(ps *pkgSyntax, cs []*Contract) (string, error) {
 	text := body.String()
 	// imports actually referenced
 	var imps []string
+	var codeOnly strings.Builder
+	for _, ln := range strings.Split(text, "\n") {
+		if i := strings.Index(ln, "//"); i >= 0 && !strings.Contains(ln[:i], "\"") {
+			ln = ln[:i]
+		}
+		codeOnly.WriteString(ln + "\n")
+	}
 	for name, path := range ps.imports {
-		if regexp.MustCompile(`\b` + regexp.QuoteMeta(name) + `\.`).MatchString(text) {
+		if regexp.MustCompile(`\b` + regexp.QuoteMeta(name) + `\.`).MatchString(codeOnly.String()) {
 			imps = append(imps, fmt.Sprintf("\t%s %q\n", name, path))
 		}
 	}
